@@ -131,7 +131,7 @@ def main(tier, seed, prop=PROP):
     try:
         for name, cases, ctype, cfn in streams(tier, seed, prop):
             st = driver.run_stream(run, gl, cases, d, name, ctype, cfn, prop_bits,
-                                   corr_bits=(5,) if cfn == "gls_brute_code" else (0, 8),
+                                   corr_bits=(5,) if cfn == "gls_brute_code" else (0, 8, 9),
                                    shard=30 if ctype == "phybo_case" else (2 if name == "gls_wide" else 400))
             total_prop += st["prop_fail"] + st["impl_errors"]
     except coqrun.CoqError as e:
